@@ -12,7 +12,44 @@ import json
 import sys
 import warnings
 
+import types
+
 warnings.simplefilter("ignore")
+
+
+def install_tokenizers_stub():
+    # sudachipy takes only PreTokenizer.custom and NormalizedString from the HuggingFace package, which is not installed here
+    tk = types.ModuleType("tokenizers")
+    pt = types.ModuleType("tokenizers.pre_tokenizers")
+
+    class PreTokenizer:
+        @staticmethod
+        def custom(obj):
+            return obj
+
+    class NormalizedString:
+        def __init__(self, s):
+            self.s = s
+
+    pt.PreTokenizer = PreTokenizer
+    tk.pre_tokenizers = pt
+    tk.NormalizedString = NormalizedString
+    sys.modules["tokenizers"] = tk
+    sys.modules["tokenizers.pre_tokenizers"] = pt
+
+
+class FakeNormalizedString:
+    def __init__(self, text):
+        self.text = text
+
+    def __str__(self):
+        return self.text
+
+    def slice(self, range_):
+        return self.text[range_]
+
+
+install_tokenizers_stub()
 from sudachipy import Dictionary, SplitMode  # noqa: E402
 
 MODES = [SplitMode.A, SplitMode.B, SplitMode.C]
@@ -90,11 +127,13 @@ def run_session(world, sess, out):
     if cfg not in DICTS:
         DICTS[cfg] = Dictionary(config_path=f"{world}/{cfg}.json", resource_dir=world)
     dic = DICTS[cfg]
-    toks, lists, handles, matchers = {}, {}, {}, {}
+    toks, lists, handles, matchers, pretoks = {}, {}, {}, {}, {}
     out.write(json.dumps({"ev": "sess", "sess": sess["sess"], "cfg": cfg}) + "\n")
     for k, op in enumerate(sess["ops"]):
         # a call that names an object an earlier (failed) call never created is not made at all
         if any(op.get(f, -1) not in (-1, None) and op[f] not in lists for f in ("out", "list")) or (op.get("tk") is not None and op["op"] != "create" and op["tk"] not in toks):
+            continue
+        if op["op"] == "pretok_call" and op["pt"] not in pretoks:
             continue
         if op["op"] == "mop" and (op["a"] not in matchers or (op["kind"] != "inv" and op["b"] not in matchers)):
             continue
@@ -102,7 +141,7 @@ def run_session(world, sess, out):
         if len(echo.get("text", [])) > 300:
             # a long text (one repeated character) is named, not copied, in the trace: [marker, length, the character]
             echo["text"] = [1114112, len(op["text"]), op["text"][0]]
-        ev = {"ev": "py", "sess": sess["sess"], "k": k, "op": op["op"], "args": echo, "res": "ok", "ret": -1, "msg": "", "same_object": False}
+        ev = {"ev": "py", "sess": sess["sess"], "k": k, "op": op["op"], "args": echo, "res": "ok", "ret": -1, "msg": "", "same_object": False, "val": []}
         try:
             o = op["op"]
             if o == "create":
@@ -164,6 +203,24 @@ def run_session(world, sess, out):
                 else:
                     b = matchers[op["b"]]
                     matchers[op["mid"]] = (a | b) if op["kind"] == "or" else (a & b) if op["kind"] == "and" else (a - b)
+            elif o == "pretok_new":
+                kwargs = {}
+                if op.get("fields") != "all":
+                    kwargs["fields"] = set(op["fields"])
+                if op.get("projection") != "surface":
+                    kwargs["projection"] = op["projection"]
+                if op["handler"]:
+                    kwargs["handler"] = lambda index, string, ms: [(m.begin(), m.end(), m.normalized_form()) for m in ms]
+                pretoks[op["pt"]] = dic.pre_tokenizer(pymode(op["mode"], k) if op["mode"] != -1 else "C", **kwargs)
+            elif o == "pretok_call":
+                r = pretoks[op["pt"]](k, FakeNormalizedString(from_cps(op["text"])))
+                val = []
+                for x in r:
+                    if isinstance(x, tuple):
+                        val.append([x[0], x[1], cps(x[2])])
+                    else:
+                        val.append(cps(x if isinstance(x, str) else x.s))
+                ev["val"] = val
             elif o == "hold":
                 handles[op["h"]] = lists[op["list"]][op["idx"]]
             elif o == "drop":
